@@ -229,6 +229,59 @@ def ja3_known_extensions():
     return problems
 
 
+def ja3_history():
+    """concrete: "a function of the message alone" against parse histories.  Hello B is fingerprinted after hellos
+    that carry the same small integer in another code space (one-byte lists: psk modes, point formats; two-byte
+    lists: suites, groups, extension types) have been parsed in the same process, and must still equal the
+    history-free reference (suites that are recorded findings - SCSV, GREASE - are left out of B).  A verdict memoised per bare integer, per class or per process shows here"""
+    from cryptoparser.tls.subprotocol import TlsHandshakeClientHello  # pylint: disable=import-outside-toplevel
+    from symcheck.harness import registry  # pylint: disable=import-outside-toplevel
+    parsed_types = set()
+    for cls in registry.leaf_parsable_classes():
+        if registry.class_name(cls).startswith('cryptoparser.tls.extension.TlsExtension') and hasattr(
+                cls, 'get_extension_type'):
+            try:
+                parsed_types.add(cls.get_extension_type().value.code)
+            except Exception:  # pylint: disable=broad-except
+                pass
+    problems = []
+
+    def fingerprint(wire):
+        try:
+            hello = TlsHandshakeClientHello.parse_exact_size(wire)
+            return [[int(item) for item in section.split('-') if item] for section in hello.ja3().split(',')]
+        except PARSE_ERRORS:
+            return None
+
+    def expect(wire, history):
+        got = fingerprint(wire)
+        if got is not None and got != ref_ja3(wire) and len(problems) < 8:
+            problems.append('after %s: ja3 %r, reference %r' % (history, got, ref_ja3(wire)))
+
+    def types_of(*codes):
+        return [(code, b'') for code in codes if code not in parsed_types and code != 0xff01]
+
+    for val in range(256):
+        wide = [val, val << 8 | val, val << 8, 0x0a0a, (val & 0xf0) << 8 | 0x0a00 | (val & 0xf0) | 0x0a]
+        wide = sorted(set(wide))
+        # (1) one-byte lists first, then the same integers as two-byte extension types / groups / suites
+        if val not in GREASE8:
+            fingerprint(_hello(0x0304, [0x1301], [(45, bytes([1, val])), (11, bytes([1, val]))]))
+        else:
+            fingerprint(_hello(0x0304, [0x1301], [(45, bytes([1, val]))]))
+        body = b''.join(ref.u16(code) for code in wide)
+        target = _hello(0x0303, [0x1301] + [code for code in wide if not _is_grease16(code) and code not in (0x00ff, 0x5600)],
+                        types_of(*wide) + [(10, ref.u16(len(body)) + body), (0xff01, b'\x00')])
+        expect(target, 'a hello with psk mode / point format %#04x' % val)
+        # (2) the two-byte spaces among themselves: a code seen as suite, then as extension type and group
+        expect(target, 'the same hello parsed before')
+        # (3) two-byte first, one-byte afterwards (point formats; one-byte GREASE values are the recorded finding)
+        if val not in GREASE8:
+            expect(_hello(0x0303, [0x1301], [(11, bytes([2, val, 0])), (45, bytes([1, val]))]),
+                   'hellos with extension type / group / suite %#06x' % val)
+    return problems
+
+
 def sample_args(rng, kwargs):
     if P.get('CODES'):
         return {'code': rng.choice(P['CODES'])}
@@ -320,6 +373,10 @@ def shards(tier, seed):  # pylint: disable=unused-argument,too-many-locals
                              {'POS': pos, 'GROUPS': groups}, 600,
                              bounds='every point format code at position %d, supported_groups %s' % (
                                  pos, 'present' if groups else 'absent')))
+    out.append(Shard(MOD, 'ja3_history', 'history', {}, kind='concrete',
+                     bounds='every integer 0..255 parsed first in a one-byte list and then as two-byte extension type, '
+                            'group and suite (and the reverse order) in one process: JA3 equals the history-free '
+                            'reference (natively)'))
     out.append(Shard(MOD, 'ja3_known_extensions', 'known_extensions', {}, kind='concrete',
                      bounds='hellos carrying every extension vector of the seed corpus, alone and in triples (natively)'))
     return out
